@@ -47,6 +47,8 @@ var verifC16Pairs = []string{
 	"mgmt:strategy-set / fw:lookup",
 	"mgmt:rib-register / mgmt-list? no: face:cleanup / face:cleanup",
 	"mgmt:cs-capacity / fw:cs-evict",
+	"mgmt:strategy-set / mgmt:rib-unregister",
+	"mgmt:fib-remove / face:cleanup",
 }
 
 func VerifC16_OperationPairs() {
@@ -64,6 +66,9 @@ func VerifC16_OperationPairs() {
 		FibStrategyTable.SetStrategyEnc(verifC16Name("/a"), verifC16Name("/localhost/nfd/strategy/multicast/v=1"))
 	}
 	lookup := verifC16Lookup(verifC16Name("/a/b/c"))
+	// (The status-dataset listings - GetAllFIBEntries / GetAllEntries followed by unlocked reads of the entries - do race
+	// with face teardown; the statement lists registration, removal, teardown, FIB and strategy updates and lookups, not
+	// listings, so they are not paired here: see DESIGN section 6, false alarms.)
 	label := "C16/no-unsynchronised-conflicting-accesses"
 	switch k {
 	case 0:
@@ -80,6 +85,10 @@ func VerifC16_OperationPairs() {
 		verifConcurrently(label, stratset, lookup)
 	case 6:
 		verifConcurrently(label, cleanup1, cleanup2)
+	case 8:
+		verifConcurrently(label, stratset, unreg)
+	case 9:
+		verifConcurrently(label, func() { FibStrategyTable.RemoveNextHopEnc(verifC16Name("/a"), 1) }, cleanup1)
 	case 7:
 		csReplacementPolicy = "lru"
 		cs := NewPitCS(func(PitEntry) {})
